@@ -496,7 +496,16 @@ func init() {
 				}
 				n++
 				r.Site(as.Pos(), "writeEntry store of Table.endSeqNum")
-				if isMaxStore(info, as, end) && r.exprCalls(info, as.Rhs[0], seqNum) {
+				usesSeq := r.exprCalls(info, as.Rhs[0], seqNum)
+				inspect(as.Rhs[0], func(m ast.Node) bool {
+					if id, isID := m.(*ast.Ident); isID {
+						if call, isCall := ast.Unparen(deref(info, id)).(*ast.CallExpr); isCall && r.P.CalleeFunc(info, call) == seqNum {
+							usesSeq = true // seqNum := entry.SeqNum()
+						}
+					}
+					return true
+				})
+				if isMaxStore(info, as, end) && usesSeq {
 					return true
 				}
 				// guarded form: if e.SeqNum() > t.endSeqNum { t.endSeqNum = e.SeqNum() }
